@@ -538,6 +538,7 @@ func (ex *Exec) chanRecv(cv Value, commaOk bool, t types.Type) Value {
 
 func (ex *Exec) chanClose(cv Value) {
 	c, _ := cv.(*ChanV)
+	ex.sched.point() // scheduling points precede the operation (the native replay inserts them before the statement)
 	if c == nil {
 		ex.oblige(TFalse, "panic:closedchan", "close of nil channel")
 		panic(pathEnd{"violation"})
@@ -547,7 +548,6 @@ func (ex *Exec) chanClose(cv Value) {
 		panic(pathEnd{"violation"})
 	}
 	c.closed = true
-	ex.sched.point()
 }
 
 func (ex *Exec) selectOp(fr *Frame, in *ssa.Select) Value {
